@@ -366,7 +366,7 @@ def rule_queries_read_only(em, rep, rid):
             eff |= direct.get(g, set())
             stack.extend(c for c in em.cg.callees(g, with_refs=False) if c.name != '__init__')
         bad = [e for e in eff if not (
-            (e[1] == var and e[2] in ('_is_bound', '_value')) or
+            (e[1] == var and e[2] in em.cell().fields) or
             (e[1] in iterator_classes) or
             (e[0] == 'intern' and e[2] == atom_field))]
         if bad:
@@ -421,7 +421,13 @@ def rule_context_not_written(em, rep, rid):
 
 
 TERM_CLASSES_WITH_PARTS = ('Variable', 'Functor')
-NON_TERM_FIELDS = ('_name', '_is_bound', '_done')
+NON_TERM_FIELDS = ['_name', '_is_bound', '_done']      # the flag of the binding cell is added under its real name by _note_cell
+
+
+def _note_cell(em):
+    flag = em.cell().flag
+    if flag and flag not in NON_TERM_FIELDS:
+        NON_TERM_FIELDS.append(flag)
 
 
 def _dominating_tests(cfg, node):
@@ -494,8 +500,7 @@ def _deref_expr_ok(em, f, cfg, retnode, e, depth=0):
                 return True, 'atomic self'
             # a variable: must be on the unbound path
             for t, lab in tests:
-                from .rules_bind import _unbound_label
-                ul = _unbound_label(t.ast, 'self')
+                ul = em.cell().unbound_label(t.ast, 'self')
                 if ul is not None and ul == lab:
                     return True, 'self on the unbound path'
             return False, 'self returned although it may be bound / has parts'
@@ -533,6 +538,7 @@ def _class_has_term_fields(c):
 
 
 def rule_deref_closure(em, rep, rid):
+    _note_cell(em)
     rep.rule(rid, 'every get_value implementation (and the module function) returns self only when atomic or unbound, the '
                   'result of get_value, or a constructor applied to such values; a term-valued field returned as stored is the violation')
     impls = [c.methods['get_value'] for c in em.repo.all_classes(('engine',)) if 'get_value' in c.methods]
@@ -561,6 +567,7 @@ def rule_deref_closure(em, rep, rid):
 
 
 def rule_to_python_siblings(em, rep, rid):
+    _note_cell(em)
     rep.rule(rid, 'every to_python implementation reads term-valued fields only through get_value()/to_python() of the component')
     impls = [c.methods['to_python'] for c in em.repo.all_classes(('engine',)) if 'to_python' in c.methods]
     # the term-valued fields of the term classes (read through any receiver, e.g. a local walking down a list)
@@ -569,7 +576,7 @@ def rule_to_python_siblings(em, rep, rid):
         if 'to_python' in c.methods and 'unify' in c.methods:
             for m in c.methods.values():
                 for y in own_nodes(m.node):
-                    if is_self_attr(y) and isinstance(y.ctx, ast.Store) and y.attr not in NON_TERM_FIELDS and y.attr != '_is_bound':
+                    if is_self_attr(y) and isinstance(y.ctx, ast.Store) and y.attr not in NON_TERM_FIELDS and y.attr != em.cell().flag:
                         term_fields.add(y.attr)
     n = 0
     for f in impls:
@@ -626,6 +633,7 @@ class Freshness:
 
     def __init__(self, em):
         self.em = em
+        _note_cell(em)
         self.var_cls = em.variable_class()[0]
         self.functor_cls = em.repo.cls('engine', 'Functor')
         cands = [f for f in em.repo.all_functions(('engine',)) if not f.is_generator and f.name not in ('__init__',)
